@@ -33,8 +33,21 @@ func genCase(t *rapid.T) arith.Case {
 			c.X.Neg = true
 		}
 	}
+	// NaN operands: a signaling NaN always raises InvalidOperation, a quiet one nothing
+	{
+		if gen.Pick(t, 25, "nanop") == 0 {
+			n := core.Dec{Form: int8(2 + gen.Pick(t, 2, "quiet")), Coeff: "0", Neg: rapid.Bool().Draw(t, "nanneg")}
+			if arith.Binary(c.Op) && rapid.Bool().Draw(t, "nany") {
+				c.Y = n
+			} else {
+				c.X = n
+			}
+		}
+	}
 	return c
 }
+
+func isNaN(d core.Dec) bool { return d.Form >= 2 }
 
 const valueMask = apd.Inexact | apd.Subnormal | apd.Underflow | apd.Overflow | apd.DivisionByZero |
 	apd.DivisionUndefined | apd.DivisionImpossible | apd.InvalidOperation
@@ -58,6 +71,36 @@ func check(c arith.Case, st *core.Stats) error {
 	if o.Err == nil && o.D.Form == apd.Finite && o.Res.Inexact() && !o.Res.Rounded() {
 		return fmt.Errorf("%v: finite result %s with Inexact but not Rounded (flags %s)", c, core.Show(o.D), core.FlagStr(o.Res))
 	}
+	// the flags are a function of the operands' values only: they must not depend on
+	// whether the destination is a fresh object or one of the operands
+	if o.Err == nil {
+		x, y := c.X.Apd(), c.Y.Apd()
+		var oa arith.Out
+		core.Guard(st, func() { oa = arith.Call(c.Op, c.Ctx.Apd(), x, x, y, c.QExp, c.Str) })
+		if oa.Res != o.Res {
+			return fmt.Errorf("%v: flags %s with a fresh destination but %s when the destination is the first operand", c, core.FlagStr(o.Res), core.FlagStr(oa.Res))
+		}
+		if arith.Binary(c.Op) {
+			x, y = c.X.Apd(), c.Y.Apd()
+			core.Guard(st, func() { oa = arith.Call(c.Op, c.Ctx.Apd(), y, x, y, c.QExp, c.Str) })
+			if oa.Res != o.Res {
+				return fmt.Errorf("%v: flags %s with a fresh destination but %s when the destination is the second operand", c, core.FlagStr(o.Res), core.FlagStr(oa.Res))
+			}
+		}
+	}
+	if isNaN(c.X) || (arith.Binary(c.Op) && isNaN(c.Y)) {
+		want := apd.Condition(0)
+		if c.X.Form == 2 || (arith.Binary(c.Op) && c.Y.Form == 2) {
+			want = apd.InvalidOperation
+			st.NonTrivial("signaling-NaN-operand")
+		} else {
+			st.Class("quiet-NaN-operand")
+		}
+		if o.Err != nil || o.Res != want {
+			return fmt.Errorf("%v: flags %s err=%v, expected exactly %s for NaN operands", c, core.FlagStr(o.Res), o.Err, core.FlagStr(want))
+		}
+		return nil
+	}
 	if !e.Defined {
 		st.Class("undefined-by-reference")
 		return nil
@@ -70,6 +113,10 @@ func check(c arith.Case, st *core.Stats) error {
 			return nil
 		}
 		return fmt.Errorf("%v: unexpected error %v (flags %s) with an empty trap set", c, o.Err, core.FlagStr(o.Res))
+	}
+	if e.Limit && o.D.Form == apd.NaN && o.Res.InvalidOperation() && c.Op == "quantize" {
+		st.Class("limit-class-invalid")
+		return nil // target exponent beyond the +/-100000 package limits: clean rejection
 	}
 	mask := apd.Condition(valueMask)
 	if c.Op == "quantize" || c.Op == "rtie" {
